@@ -180,6 +180,7 @@ next_layer:
         // the root node of the some layer was deleted.
         // So it must retry from root of the all tree.
         if (early_abort) { return status::WARN_CONCURRENT_OPERATIONS; }
+        YAKUSHIMA_VERIF_HOOK(YAKUSHIMA_VERIF_RETRY, nullptr);
         goto retry_from_root; // NOLINT
     }
     constexpr std::size_t tuple_node_index = 0;
@@ -205,6 +206,7 @@ retry_fetch_lv:
          * It may be change the correct border between atomically fetching border node and
          * atomically fetching lv.
          */
+        YAKUSHIMA_VERIF_HOOK(YAKUSHIMA_VERIF_RETRY, nullptr);
         goto retry_from_root; // NOLINT
     }
     if (lv_ptr != nullptr && target_border->get_key_length_at(lv_pos) > sizeof(key_slice_type)) {
@@ -214,6 +216,7 @@ retry_fetch_lv:
         root = lv_ptr->get_next_layer();
         if (root == nullptr) {
             if (early_abort) { return status::WARN_CONCURRENT_OPERATIONS; }
+            YAKUSHIMA_VERIF_HOOK(YAKUSHIMA_VERIF_RETRY, nullptr);
             goto retry_fetch_lv; // NOLINT
         }
 
@@ -222,11 +225,13 @@ retry_fetch_lv:
         if ((final_check.get_deleted() && !final_check.get_root()) || // this border was deleted.
             final_check.get_vsplit() != v_at_fb.get_vsplit()) { // this border may be incorrect.
             if (early_abort) { return status::WARN_CONCURRENT_OPERATIONS; }
+            YAKUSHIMA_VERIF_HOOK(YAKUSHIMA_VERIF_RETRY, nullptr);
             goto retry_from_root; // NOLINT
         }
         // check whether fetching lv is still correct.
         if (final_check.get_vinsert_delete() != v_at_fetch_lv.get_vinsert_delete()) { // fetched lv may be deleted
             if (early_abort) { return status::WARN_CONCURRENT_OPERATIONS; }
+            YAKUSHIMA_VERIF_HOOK(YAKUSHIMA_VERIF_RETRY, nullptr);
             goto retry_fetch_lv; // NOLINT
         }
         // root was fetched correctly.
@@ -252,9 +257,11 @@ retry_fetch_lv:
             node_version64_body final_check = target_border->get_stable_version();
             if (final_check.get_vsplit() != v_at_fb.get_vsplit() ||
                 (final_check.get_deleted() && !final_check.get_root())) {
+                YAKUSHIMA_VERIF_HOOK(YAKUSHIMA_VERIF_RETRY, nullptr);
                 goto retry_from_root; // NOLINT
             }
             if (final_check.get_vinsert_delete() != v_at_fetch_lv.get_vinsert_delete()) {
+                YAKUSHIMA_VERIF_HOOK(YAKUSHIMA_VERIF_RETRY, nullptr);
                 goto retry_fetch_lv; // NOLINT
             }
             out = v_body;
@@ -331,6 +338,7 @@ retry_from_root:
                 base_node* new_mt_root = ctx->get_ti()->load_root_ptr();
                 if (root != new_mt_root) {
                     ctx->stack_top().layer_root = new_mt_root;
+                    YAKUSHIMA_VERIF_HOOK(YAKUSHIMA_VERIF_RETRY, nullptr);
                     goto retry_from_root; // NOLINT
                 }
                 // mt root is deleted, so scan end
@@ -339,6 +347,7 @@ retry_from_root:
             // L1+
             ctx->stack_pop();
             st = &ctx->stack_top(); // sync alias
+            YAKUSHIMA_VERIF_HOOK(YAKUSHIMA_VERIF_RETRY, nullptr);
             goto retry_from_root; // NOLINT
         }
         if (!rv.get_root()) {
@@ -347,6 +356,7 @@ retry_from_root:
             if (ctx->stack_size() == 1) { // L0
                 base_node* new_mt_root = ctx->get_ti()->load_root_ptr();
                 ctx->stack_top().layer_root = new_mt_root;
+                YAKUSHIMA_VERIF_HOOK(YAKUSHIMA_VERIF_RETRY, nullptr);
                 goto retry_from_root; // NOLINT
             }
             ctx->stack_pop();
@@ -358,6 +368,7 @@ retry_from_root:
             find_border(root, last_key.get_key_slice(), last_key.get_key_length(), check_status);
         border_node* target_border = std::get<0>(border_node_and_v);
         if (check_status != status::OK) {
+            YAKUSHIMA_VERIF_HOOK(YAKUSHIMA_VERIF_RETRY, nullptr);
             goto retry_from_root; // NOLINT
         }
         ctx->stack_top().bn = target_border;
@@ -379,6 +390,7 @@ retry_after_fb:
             std::size_t index = perm.get_index_of_rank(0);
             auto kt = key_tuple(bn->get_key_slice_at(index), bn->get_key_length_at(index));
             if (kt > last_key) {
+                YAKUSHIMA_VERIF_HOOK(YAKUSHIMA_VERIF_RETRY, nullptr);
                 goto retry_from_root; // NOLINT
             }
         } else {
@@ -386,6 +398,7 @@ retry_after_fb:
             std::size_t index = perm.get_index_of_rank(perm.get_cnk() - 1);
             auto kt = key_tuple(bn->get_key_slice_at(index), bn->get_key_length_at(index));
             if (kt < last_key) {
+                YAKUSHIMA_VERIF_HOOK(YAKUSHIMA_VERIF_RETRY, nullptr);
                 goto retry_from_root; // NOLINT
             }
         }
@@ -424,9 +437,11 @@ retry_after_fb:
         if (check_status != status::OK) {
             if (early_abort) { return status::WARN_CONCURRENT_OPERATIONS; }
             if (check_status == status::OK_RETRY_FROM_ROOT) {
+                YAKUSHIMA_VERIF_HOOK(YAKUSHIMA_VERIF_RETRY, nullptr);
                 goto retry_from_root; // NOLINT
             }
             if (check_status == status::OK_RETRY_AFTER_FB) {
+                YAKUSHIMA_VERIF_HOOK(YAKUSHIMA_VERIF_RETRY, nullptr);
                 goto retry_after_fb; // NOLINT
             }
         }
@@ -504,9 +519,11 @@ retry_after_fb:
             if (check_status != status::OK) {
                 if (early_abort) { return status::WARN_CONCURRENT_OPERATIONS; }
                 if (check_status == status::OK_RETRY_FROM_ROOT) {
+                    YAKUSHIMA_VERIF_HOOK(YAKUSHIMA_VERIF_RETRY, nullptr);
                     goto retry_from_root; // NOLINT
                 }
                 if (check_status == status::OK_RETRY_AFTER_FB) {
+                    YAKUSHIMA_VERIF_HOOK(YAKUSHIMA_VERIF_RETRY, nullptr);
                     goto retry_after_fb; // NOLINT
                 }
             }
@@ -530,12 +547,14 @@ retry_after_fb:
     {
         border_node* check_to_bn = right_to_left ? bn->get_prev() : bn->get_next();
         if (to_bn != check_to_bn) {
+            YAKUSHIMA_VERIF_HOOK(YAKUSHIMA_VERIF_RETRY, nullptr);
             goto retry_from_root; // NOLINT
         }
     }
     if (to_bn != nullptr) {
         to_version = to_bn->get_stable_version();
         if (to_version.get_deleted()) { // XXX
+            YAKUSHIMA_VERIF_HOOK(YAKUSHIMA_VERIF_RETRY, nullptr);
             goto retry_from_root; // NOLINT
         }
         to_perm_body = to_bn->get_permutation().get_body();
@@ -546,9 +565,11 @@ retry_after_fb:
     if (check_status != status::OK) {
         if (early_abort) { return status::WARN_CONCURRENT_OPERATIONS; }
         if (check_status == status::OK_RETRY_FROM_ROOT) {
+            YAKUSHIMA_VERIF_HOOK(YAKUSHIMA_VERIF_RETRY, nullptr);
             goto retry_from_root; // NOLINT
         }
         if (check_status == status::OK_RETRY_AFTER_FB) {
+            YAKUSHIMA_VERIF_HOOK(YAKUSHIMA_VERIF_RETRY, nullptr);
             goto retry_after_fb; // NOLINT
         }
     }
@@ -571,6 +592,7 @@ retry_after_fb:
         return status::OK_SCAN_CONTINUE;
     }
     if ((right_to_left ? to_bn->get_next() : to_bn->get_prev()) != bn) {
+        YAKUSHIMA_VERIF_HOOK(YAKUSHIMA_VERIF_RETRY, nullptr);
         goto retry_from_root; // NOLINT
     }
 
